@@ -78,6 +78,36 @@ Section ThresholdForms.
       flush_incurred_to_base ts
     else tracks.
 
+  (* 11.5.1 distribute_item_space_to_base_size: the second absolute constant (0.000001: `extra > THRESHOLD` decides whether
+     the space is distributed beyond the limits) is the argument tau2 *)
+  Definition distribute_item_space_to_base_size_inner_t (tau2 : T) (space : T) (tracks : list (track T))
+             (is_affected : track T -> bool) (proportion limit : track T -> T) (ct : contribution_type) : list (track T) :=
+    if (space =? zero) || negb (existsb is_affected tracks) then tracks
+    else
+      let track_sizes := fsum (map base_size tracks) in
+      let extra := fmax zero (space - track_sizes) in
+      let '(extra1, ts1) := distribute_space_up_to_limits_t extra tracks is_affected proportion base_size limit in
+      let ts2 :=
+        if tau2 <? extra1 then
+          let filter1 := match ct with
+                         | CMinimum => fun t => is_intrinsic (maxf t)
+                         | CMaximum => fun t => is_max_content (minf t) || is_max_or_fit_content (maxf t)
+                         end in
+          let number := length (filter (fun t => is_affected t && filter1 t) ts1) in
+          let filter2 := match number with O => fun _ => true | _ => filter1 end in
+          snd (distribute_space_up_to_limits_t extra1 ts1 filter2 proportion base_size limit)
+        else ts1 in
+      map (fun t => let t' := if base_planned t <? incurred t then set_base_planned t (incurred t) else t in
+                    set_incurred t' zero) ts2.
+
+  Definition distribute_item_space_to_base_size_t (tau2 : T) (is_flex use_flex_factor : bool) (space : T) (tracks : list (track T))
+             (is_affected : track T -> bool) (limit : track T -> T) (ct : contribution_type) : list (track T) :=
+    if is_flex then
+      let flt := fun t => is_flexible t && is_affected t in
+      if use_flex_factor then distribute_item_space_to_base_size_inner_t tau2 space tracks flt flex_factor limit ct
+      else distribute_item_space_to_base_size_inner_t tau2 space tracks flt (fun _ => one) limit ct
+    else distribute_item_space_to_base_size_inner_t tau2 space tracks is_affected (fun _ => one) limit ct.
+
   (* track_sizing_algorithm (11.4 .. 11.8) with the threshold of step 11.6 explicit; step 11.5 is an argument *)
   Definition track_sizing_algorithm_t (axis_min axis_max : option T) (stretch : bool) (avail : avail_space T)
              (inner : option T) (intrinsic : list (track T) -> list (track T)) (flex_items : list (nat * nat * T))
